@@ -166,7 +166,14 @@ def one_case(c, rng, tmp):
     fn_args_sp = sw.case_args[0] if (bare and rng.random() < 0.5) else tuple(sw.case_args)
     desc["bare_case_values"] = bare
     given = {"constants": constants, "resources": resources, "attrs": attrs}
-    constants, resources, attrs = dict(constants), dict(resources), dict(attrs)   # what xyzpy is handed
+    # what xyzpy is handed: copies, now and then spelled as a list of (name, value) pairs (anything dict() accepts)
+    def handed_form(m):
+        return list(m.items()) if (m and rng.random() < 0.12) else dict(m)
+    constants, resources, attrs = handed_form(constants), handed_form(resources), handed_form(attrs)
+    if var_coords and rng.random() < 0.12:
+        var_coords = list(var_coords.items())
+    desc["pair_lists"] = [k for k, v in (("constants", constants), ("resources", resources), ("attrs", attrs),
+                                         ("var_coords", var_coords)) if isinstance(v, list)]
     try:
         if api == "function":
             if sw.cases and rng.random() < 0.5:
@@ -185,6 +192,9 @@ def one_case(c, rng, tmp):
                         if len(items) > 1 and rng.random() < 0.5:
                             rng.shuffle(items)
                             cases_d[ci] = dict(items)
+                    if len(cases_d) == 1 and rng.random() < 0.5:
+                        cases_d = cases_d[0]          # a single case may be given as the bare dict
+                        desc["single_dict_case"] = True
                 out = f(fn, combos, var_names, var_dims=var_dims, var_coords=var_coords,
                         cases=cases_d, constants=constants or None,
                         resources=resources or None, attrs=attrs or None, shuffle=shuffle, verbosity=0, **extra)
@@ -206,6 +216,16 @@ def one_case(c, rng, tmp):
                 runner = xyzpy.label(var_names, var_dims=var_dims, var_coords=var_coords,
                                      constants=constants or None, resources=resources or None, attrs=attrs or None,
                                      fn_args=tuple(own_args), **defaults)(fn)
+            elif rng.random() < 0.3:
+                # the description assigned after construction, through the Runner's attributes
+                desc["runner_attributes_assigned"] = True
+                runner = xyzpy.Runner(fn, None, attrs=attrs or None, **defaults)
+                runner.fn_args = tuple(own_args)
+                runner.var_names = var_names
+                runner.var_dims = var_dims
+                runner.var_coords = var_coords
+                runner.constants = constants or None
+                runner.resources = resources or None
             else:
                 runner = xyzpy.Runner(fn, var_names, var_dims=var_dims, var_coords=var_coords,
                                       constants=constants or None, resources=resources or None, attrs=attrs or None,
@@ -224,7 +244,7 @@ def one_case(c, rng, tmp):
     if pool is not None:
         pool.shutdown()
     modified = {k: v for k, v in (("constants", constants), ("resources", resources), ("attrs", attrs))
-                if v != given[k]}
+                if dict(v) != given[k] or (isinstance(v, list) and v != list(given[k].items()))}
     constants, resources, attrs = given["constants"], given["resources"], given["attrs"]
     fn_args = list(sw.case_args) + list(sw.combo_args)
     perm = py_perm(shuffle, sw.n_settings()) if shuffle else None
